@@ -126,6 +126,7 @@ class Engine:
             if not isinstance(d, bool):
                 raise HarnessError("replay desynchronised: expected branch, trail has %r" % (d,))
             self.pos += 1
+            self.model = None  # a model cached earlier on this path need not satisfy a replayed decision
             self._assert_decided(cond if d else z3.Not(cond))
             return d
         self._new_decision()
@@ -164,6 +165,7 @@ class Engine:
                     raise HarnessError("replay desynchronised: expected concretisation, trail has %r" % (ent,))
                 kind, v = ent
                 self.pos += 1
+                self.model = None
                 if kind == "eq":
                     self._assert_decided(expr == v)
                     return v
